@@ -1,3 +1,13 @@
 import BacVerif.Props.C10
+#print axioms BacVerif.C10.reply_exists
+#print axioms BacVerif.C10.garbage_leaves_nothing
+#print axioms BacVerif.C10.quiesce_complete
+#print axioms BacVerif.C10.good_init
 #print axioms BacVerif.C10.recvAll_append
+#print axioms BacVerif.C10.dropped_is_noop
+#print axioms BacVerif.C10.dropped_leaves_state
+#print axioms BacVerif.C10.dropped_absent
+#print axioms BacVerif.C10.queued_request_answered
+#print axioms BacVerif.C10.answered_after_garbage
 #print axioms BacVerif.C10.reject_table_agrees
+#print axioms BacVerif.C10.defaults_meet_hypotheses
